@@ -186,8 +186,9 @@ package pubsub
 
 // RandomSubRouter.Publish: recipients are topic peers only, never the forwarder or the author;
 // every floodsub-only topic peer is a recipient; of the randomsub-capable topic peers all are
-// recipients when there are at most RandomSubD of them, otherwise exactly max(RandomSubD,
-// ceil(sqrt(size))) (capped by their number) of them; one push attempt per recipient with an
+// recipients when there are at most RandomSubD of them, otherwise a sample whose target size is
+// at least RandomSubD and at most their number (the square-root rule and the use of exactly
+// the shuffled prefix are not stated); one push attempt per recipient with an
 // outbound queue, traced as SEND_RPC or DROP_RPC, carrying the RPC around the accepted message.
 //@ func (*RandomSubRouter).Publish
 //@   property C06 C19
